@@ -611,8 +611,14 @@ def rule_r7(rep, program: Program):
         r.inst({"class": k.name, "accepts copy=": takes_copy, "returns": [norm(x.value)[:40] for x in rets]})
         if not takes_copy:
             continue  # NumPy makes the copy itself
+        bound = {}
+        for a in ast.walk(f.node):
+            if isinstance(a, ast.Assign) and len(a.targets) == 1 and isinstance(a.targets[0], ast.Name):
+                bound.setdefault(a.targets[0].id, []).append(a.value)
         for x in rets:
             v = x.value
+            if isinstance(v, ast.Name) and len(bound.get(v.id, [])) == 1:
+                v = bound[v.id][0]  # a local bound once: what it was bound to
             own = is_self_attr(v) or (isinstance(v, ast.Attribute) and is_self_attr(v.value))
             if not own:
                 continue
